@@ -167,8 +167,27 @@ func New(cfg Config, tape *Tape) *Sim {
 	return s
 }
 
+// OnRunStart registers a function to be called when a run begins. The
+// instrumenter emits one per package that keeps scalar state in package level
+// variables (counters): every run starts from the state a fresh process has.
+func OnRunStart(f func()) {
+	runStartMu.Lock()
+	runStart = append(runStart, f)
+	runStartMu.Unlock()
+}
+
+var (
+	runStartMu sync.Mutex
+	runStart   []func()
+)
+
 // Activate makes s the simulation seen by instrumented code.
 func (s *Sim) Activate() {
+	runStartMu.Lock()
+	for _, f := range runStart {
+		f()
+	}
+	runStartMu.Unlock()
 	s.start = time.Now()
 	s.mu.Lock()
 	s.gap = s.drawGapLocked()
